@@ -410,6 +410,7 @@ class Sim:
         self.jobs: Dict[Tuple[str, str, int], Job] = {}
         self.journal: List[Tuple[str, str, int]] = []   # jobs-submit launches
         self.inflight: List[dict] = []      # messages emitted, undelivered
+        self.delivered_log: List[dict] = []  # every message ever delivered
         self.trace: List[dict] = []         # monitor events
         self.cmd_counter = 0
         self.iteration = 0
@@ -843,6 +844,8 @@ class Sim:
             if False else Tokens(f'{cycle}/{name}/{sn:02d}', relative=True),
             '2000-01-01T00:00:00Z', sev, msg['msg'])
         self.schd.message_queue.put(tm)
+        self.delivered_log.append({'job': tuple(msg['job']),
+                                   'msg': msg['msg']})
         self.ev('deliver', job=f'{cycle}/{name}/{sn:02d}', msg=msg['msg'],
                 dup=keep)
 
@@ -899,6 +902,7 @@ class Sim:
             top = depth[0] == 0
             depth[0] += 1
             if top:
+                was_transient = itask.transient
                 before = (itask.state.status, itask.submit_num, sorted(
                     itask.state.outputs.get_completed_outputs()))
                 n_put = sim.cluster.n_put if sim.cluster else 0
@@ -907,7 +911,9 @@ class Sim:
                             submit_num, forced)
             finally:
                 depth[0] -= 1
-            if top and not itask.transient:
+            # (a message that completes the task also removes it from the
+            # pool, which marks the proxy transient: still recorded)
+            if top and not was_transient:
                 after = (itask.state.status, itask.submit_num, sorted(
                     itask.state.outputs.get_completed_outputs()))
                 sim.ev('pm', cycle=str(itask.point), name=itask.tdef.name,
